@@ -27,8 +27,10 @@ VARIABLE l          \* next line of Rec to consume
 
 IsEvent(name) == l <= Len(Rec) /\ Rec[l].ev = name /\ l' = l + 1
 
-Judge(ok, what) == ok \/ (~Strict /\ PrintT(<< "VIOL", l, what >>))
-Drift(ok, what) == ok \/ PrintT(<< "DRIFT", l, what >>)
+\* (IF rather than \/: inside an action TLC explores both sides of a disjunction as separate successors
+\* while primed variables are still unassigned, which would print a verdict for the side that was not taken)
+Judge(ok, what) == IF ok THEN TRUE ELSE (~Strict /\ PrintT(<< "VIOL", l, what >>))
+Drift(ok, what) == IF ok THEN TRUE ELSE PrintT(<< "DRIFT", l, what >>)
 
 \* Vacuity guard: tallies of how many events actually exercised a clause (registers 11..14; the
 \* meaning of each is stated by the trace spec that uses it).  Needs -workers 1.
